@@ -1161,7 +1161,8 @@ func (s *ipamSys) step(st vt.M) {
 	}
 }
 
-// drain: healthy cloud and API server from here on; reconcile until nothing changes any more, then the
+// drain: healthy cloud and API server from here on; reconcile until nothing changes any more (repeated reconciliation
+// includes the periodic full synchronisation: one falls due if seven rounds did not bring the node to rest), then the
 // fixed-point observation, then one forced full synchronisation and the agreement observation.
 func (s *ipamSys) drain() {
 	s.cloud.mu.Lock()
@@ -1177,7 +1178,7 @@ func (s *ipamSys) drain() {
 		s.cloud.mu.Lock()
 		m0 := s.cloud.muts
 		s.cloud.mu.Unlock()
-		s.reconcile("", false)
+		s.reconcile("", rounds == 7) // not at rest after seven rounds: the periodic full synchronisation falls due once
 		s.cloud.mu.Lock()
 		dm := s.cloud.muts - m0
 		s.cloud.mu.Unlock()
@@ -1287,7 +1288,7 @@ func ipamRandomScenario(k int, env string, skip map[string]bool) []vt.M {
 		}
 		return m
 	}
-	fams := []string{"random", "lifecycle", "resandbox", "shrink", "faulty", "rollback", "rdma", "gcstale"}
+	fams := []string{"random", "lifecycle", "resandbox", "shrink", "faulty", "rollback", "rdma", "gcstale", "adopt"}
 	fam := fams[k%len(fams)]
 	if skip[fam] {
 		fam = "random"
@@ -1295,6 +1296,9 @@ func ipamRandomScenario(k int, env string, skip map[string]bool) []vt.M {
 	n := 10 + rng.Intn(10)
 	if fam == "rollback" || fam == "rdma" {
 		n = rng.Intn(4)
+	}
+	if fam == "adopt" {
+		n = 0
 	}
 	for i := 0; i < n; i++ {
 		p := 1 + rng.Intn(4)
@@ -1387,6 +1391,26 @@ func ipamRandomScenario(k int, env string, skip map[string]bool) []vt.M {
 		}
 		sc = append(sc, vt.M{"a": "plan", "outcomes": outs}, vt.M{"a": "reconcile", "write": []string{"", "conflict", "error"}[rng.Intn(3)]}, rec(),
 			vt.M{"a": "plan", "outcomes": []any{ipamFaults[rng.Intn(len(ipamFaults))]}}, rec(), rec())
+	case "adopt":
+		// dual stack, running pods of a previous version report both addresses; the IPv6 side of some of them cannot be
+		// bound (its address vanished in the cloud, or the record binds only part), with and without new pods competing
+		cf["v4"], cf["v6"], cf["pre"], cf["preIPs"], cf["rdma"], cf["trunk"] = true, true, 1+rng.Intn(2), 2, 0, false
+		cf["sec"] = cf["pre"]
+		cf["init"] = []string{"takeover", "takeover", "partial"}[rng.Intn(3)]
+		if env != "all" {
+			cf["init"] = "takeover"
+		}
+		for j := 0; j < 1+rng.Intn(2); j++ {
+			sc = append(sc, vt.M{"a": "drift_remove", "k": rng.Intn(2), "j": rng.Intn(2), "fam": 6})
+		}
+		if rng.Intn(3) != 0 {
+			sc = append(sc, vt.M{"a": "pod_create", "p": 4})
+		}
+		sc = append(sc, vt.M{"a": "reconcile", "full": true}, vt.M{"a": "reconcile"})
+		if rng.Intn(2) == 0 {
+			sc = append(sc, vt.M{"a": "pod_delete", "p": 1 + rng.Intn(2)}, vt.M{"a": "flush"})
+		}
+		sc = append(sc, vt.M{"a": "pod_create", "p": 4}, rec(), vt.M{"a": "cni_add", "p": 4}, rec())
 	case "rollback":
 		// a new interface is needed; its creation succeeds, the attach (or the wait) fails, sometimes the roll-back delete fails too
 		cf["pre"], cf["init"] = 0, "empty"
